@@ -49,6 +49,10 @@ def gen_cases(rng, n):
         if r < 0.06:
             cases.append((gen_param_leading(rng), None, [BIG] + rng.sample([1, 2, 3, 4, 10], 2)))
             continue
+        if r < 0.11:
+            # constants only the resolver can evaluate, declared after their readers; symbols named like built-in functions
+            cases.append((gen_cascade.gen_file_constant_program(rng), None, [BIG] + rng.sample([1, 2, 3, 4, 10], 2)))
+            continue
         if r < 0.4:
             p = gen_isa.gen_prog(rng)
             text = gen_isa.render(p, rng)
